@@ -91,3 +91,32 @@ Theorem C14_interactive_cache_directory_invariant :
     CacheSpec.dir_ok (CacheExec.cfs s) = true /\ CacheSafe.fs_wf (CacheExec.cfs s).
 Proof. exact CacheSafe.dir_inv. Qed.
 Print Assumptions C14_interactive_cache_directory_invariant.
+
+(* ---- progress after an interruption (Proofs/FileLive.v, 1100 lines).  A NEW session over ANY
+   directory in which every result file is complete - whatever stale input (.h5in) and intermediate
+   (.h5ready) files earlier killed runs left behind - every program without cancellation that submits
+   each call once and nothing after its shutdown, no two identical calls, every schedule without a
+   kill in THIS session: whenever every started process has exited and the loop thread is between two
+   iterations, (A) every future still registered is done or has a complete result file (the next
+   scan completes it) and (B) every call taken from the queue is done or registered.  Leftovers
+   neither wedge the loop nor lose a call. ---- *)
+From EL Require Model.ExecInv Model.FileLiveSpec Proofs.FileLive.
+Theorem C14_leftovers_never_block_progress :
+  forall c n prog fs0 s,
+    FileSpec.nocancel prog = true -> ExecInv.wf_prog n prog -> FileLiveSpec.no_late_submit prog = true ->
+    (forall i j, FileExec.fcanon c i = FileExec.fcanon c j -> i = j) ->
+    FileSafe.fs_wf fs0 -> FileLiveSpec.fs_outs_complete fs0 = true ->
+    FileLive.freach_nk c (FileExec.finit n prog fs0) s ->
+    FileLiveSpec.rest_ok prog s = true.
+Proof. exact FileLive.file_progress_at_rest. Qed.
+Print Assumptions C14_leftovers_never_block_progress.
+
+(* the premises are satisfiable over a directory with stale .h5in / .h5ready files, and "no kill in
+   this session" is needed *)
+Theorem C14_progress_over_leftover_files_witness : ltac:(let t := type of FileLive.rest_state_leftover_files in exact t).
+Proof. exact FileLive.rest_state_leftover_files. Qed.
+Print Assumptions C14_progress_over_leftover_files_witness.
+
+Theorem C14_progress_refuted_with_kill : ltac:(let t := type of FileLive.progress_needs_no_kill in exact t).
+Proof. exact FileLive.progress_needs_no_kill. Qed.
+Print Assumptions C14_progress_refuted_with_kill.
